@@ -251,12 +251,20 @@ def replay_ode(args):
     def want_of(exp):
         return [np.array([float(x) for x in row]) for row in exp["derivs"]]
 
-    def run(routine, variant, make_alg, vf, inits, want, expect_len):
+    def run(routine, variant, make_alg, vf, inits, want, expect_len, reuse=False):
         nonlocal calls
         calls += 1
         ran.add((routine, variant))
         try:
-            out, _info = make_alg()(vf, inits, t=t0)
+            alg = make_alg()
+            if reuse:
+                # the routine OBJECT is used for another problem of the same shapes first (different initial values and
+                # time): its result for this problem must not depend on what it was called with before
+                try:
+                    alg(vf, jax.tree_util.tree_map(lambda x: x + 1.0, inits), t=t0 + 0.5)
+                except Exception:
+                    pass
+            out, _info = alg(vf, inits, t=t0)
             got = _flat_list(out)
         except Exception as e:  # a routine must not crash on a valid program
             fails.append((routine, variant, f"raised {type(e).__name__}: {str(e)[:200]}"))
@@ -289,6 +297,10 @@ def replay_ode(args):
         res = pdq.residual_from_ode(ode_flat).jet_lift(lift_by=num - 1)
         run(R_RES, "flat", lambda: pdq.jetexpand_residual(num=num), res, flat_inits, want, m + num)
         run(R_RES, "flat", lambda: pdq.jetexpand_residual(num=0), res, flat_inits, want, m)
+        run(R_RES, "flat-reused-object", lambda: pdq.jetexpand_residual(num=num), res, flat_inits, want, m + num, reuse=True)
+        run(R_SCAN, "flat-reused-object", lambda: pdq.jetexpand_ode_padded_scan(num=num_full), ode_flat, flat_inits, want, m + num_full, reuse=True)
+        run(R_UNROLL, "flat-reused-object", lambda: pdq.jetexpand_ode_unroll(num=num_full), ode_flat, flat_inits, want, m + num_full, reuse=True)
+        run(R_JVP, "flat-reused-object", lambda: pdq.jetexpand_ode_via_jvp(num=num_full), ode_flat, flat_inits, want, m + num_full, reuse=True)
         # an implicit problem that is NONLINEAR in its highest derivative and still determines it uniquely:
         # phi(u^(m)) - phi(F(u, .., t)) = 0 with the strictly increasing phi(x) = x^3/s^2 + x has the same solution as u^(m) = F,
         # but the default Gauss-Newton solver of the routine needs several iterations for every coefficient
